@@ -107,7 +107,11 @@ static void gen_cls(Draw &d, Case &c) {
   std::stable_sort(idx.begin(), idx.end(), [&](int a, int b) { return key[a] < key[b]; });
   auto gaps = d.ivec(n, 1, 40);
   std::vector<double> score(n); int64_t cur = -(int64_t)d.i(0, 2000);
-  for (int r = 0; r < n; r++) { cur += gaps[r]; score[idx[r]] = (double)cur / 16.0; }
+  // "arbitrary score distributions": half of the cases rescale the scores by 1e-6..1e3 (distinct scores stay distinct; a ranking
+  // that treats scores closer than some absolute threshold as equal shows on the small scales)
+  double sscale = d.coin(50) ? 1.0 : std::pow(10.0, (double)d.i(-6, 3));
+  for (int r = 0; r < n; r++) { cur += gaps[r]; score[idx[r]] = (double)cur / 16.0 * sscale; }
+  if (sscale != 1.0) c.tags.push_back(fmt("score-scale=1e%d", (int)std::lround(std::log10(sscale))));
   auto lab = d.ivec(n, 0, 1);
   // correlate labels with scores in half of the cases
   if (d.coin(50)) { auto flip = d.ivec(n, 0, 99); for (int r = 0; r < n; r++) lab[idx[r]] = (r * 2 >= n) ^ (flip[r] < 25) ? 1 : 0; }
@@ -146,9 +150,12 @@ static void pred_cls(const Case &c) {
   for (int i = 0; i < n; i++) VF_CHECK(roc(i + 1, 0) >= roc(i, 0) && roc(i + 1, 1) >= roc(i, 1), "ROC not monotone at point %d", i + 1);
   VF_CLOSE(auc, mw, 1e-12L, "AUC vs Mann-Whitney probability");
   // strictly increasing map of the scores
-  V s2(n); for (int i = 0; i < n; i++) s2[i] = map == 0 ? (double)(a * s[i] + b) : map == 1 ? std::exp((double)s[i] / 64.0) : (double)(s[i] * s[i] * s[i]);
-  for (int i = 0; i < n; i++) for (int j = 0; j < i; j++) if ((s[i] < s[j]) != (s2[i] < s2[j]) || s2[i] == s2[j]) fail("harness: monotone map lost the order");
-  VF_CLOSE(lib_auc(y, s2), auc, 1e-12L, "AUC invariance under a strictly increasing map of the scores");
+  ld smaxabs = 1e-300L; for (int i = 0; i < n; i++) smaxabs = std::max(smaxabs, fabsl(s[i]));
+  V s2(n); for (int i = 0; i < n; i++) s2[i] = map == 0 ? (double)(a * s[i] + b) : map == 1 ? std::exp((double)(s[i] / smaxabs) * 6.0) : (double)(s[i] * s[i] * s[i]);
+  bool mapok = true;   // rounding of the map may merge or swap two neighbours: then the relation says nothing and is skipped
+  for (int i = 0; i < n && mapok; i++) for (int j = 0; j < i; j++) if ((s[i] < s[j]) != (s2[i] < s2[j]) || s2[i] == s2[j]) { mapok = false; break; }
+  if (mapok) VF_CLOSE(lib_auc(y, s2), auc, 1e-12L, "AUC invariance under a strictly increasing map of the scores");
+  else tag("monotone-map-skipped(rounding)");
   V yp(n), sp(n); for (int i = 0; i < n; i++) { yp[i] = y[perm[i]]; sp[i] = s[perm[i]]; }
   VF_CLOSE(lib_auc(yp, sp), auc, 1e-12L, "AUC invariance under reordering of the objects");
   V sn(n); for (int i = 0; i < n; i++) sn[i] = -s[i];
